@@ -7,21 +7,34 @@ from props import c11_oracle as O
 MANIFEST = {
     "text": "Lean theorems about M, the transcription of libcoap's observer handling (coap_add_observer, the notify loop with "
             "NSTART back-pressure and the NON/CON choice, every removal path, resource deletion, retransmission give-up, idle "
-            "session reclaim): reregistration_replaces by induction over ALL event sequences (no two entries of a session "
-            "with one token or one cache key); observe_strictly_increasing (24-bit serial arithmetic, < 2^23 changes between two "
-            "values, across the wrap); every_sixth_con over the extracted COAP_OBS_MAX_NON; notification_per_observer(_loop), "
-            "latest_eventually_notified (no lost wake-up; fairness hypothesis explicit), no_notification_after_cancel and its "
-            "siblings for error response / session loss / resource deletion, notes_only_to_listed. M is tied to the compiled "
-            "code by exact trace equality on an H-sim harness (real server context, 1..3 resources, 1..4 real client "
+            "session reclaim), stated as GLOBAL invariants over ALL event sequences (induction over run; every step is "
+            "decomposed resource-by-resource into micro transitions, Lemmas/ObserveRun.lean): reregistration_replaces (no two "
+            "entries of a session with one token or one cache key); observe_strictly_increasing_run (of any two notifications of "
+            "a run to one (session, token, resource) the later reports a strictly later state — between two notifications the "
+            "counter HAS advanced — and its Observe value is greater in 24-bit serial arithmetic when < 2^23 changes lie "
+            "between, across the wrap); every_sixth_con_run(_init) (every window of COAP_OBS_MAX_NON+1 consecutive notifications "
+            "to an entry within one registration epoch contains a CON; extracted constant, D8); no_notification_while_absent + "
+            "one run-level theorem per deregistration cause (Observe=1, failed CON = retransmission give-up, error response to "
+            "the request / while notifying, session loss, resource deletion; Reset: _partial, open finding); ref_eq_holders "
+            "(ref = observer entries + queued nodes in every reachable state) hence session_alive_while_observed / "
+            "idle_reclaim_keeps_observed; latest_eventually_notified_run (no lost wake-up: a stale entry keeps observe_pending and "
+            "the resource flag set in every reachable state; a non-stale entry has been sent the current state; explicit fairness "
+            "hypothesis: not back-pressured when the walk reaches it => the I/O step writes the latest state). M is tied to the "
+            "compiled code by exact trace equality on an H-sim harness (real server context, 1..3 resources, 1..4 real client "
             "contexts, virtual clock, scripted network): every datagram, every subscriber list, counter, flag, session "
             "ref/con_active/tx_mid and send-queue deadline after every event; the implementation's trace is in addition "
             "judged directly against the property by an oracle that never looks at M.",
-    "note": "partial: notification bodies needing block-wise transfer rely on C09 (not exercised here); the per-observer "
-            "ordering across the dirty flags and the reference-count equation ref = entries + queued nodes are checked on every "
-            "event of every history by T2/the oracle, their Lean statements are the local lemmas + "
-            "session_alive_while_observed_partial; open finding rst_of_superseded_notification_ignored. Trusted: Lean kernel "
-            "(+ propext, Classical.choice, Quot.sound), T1 extractor, harness/observe.c + sim_core.h, generators, the oracle, "
-            "the hand transcription M (checked on the cases run only); SHA-256 cache key assumed injective.",
+    "note": "partial: (i) Reset — no_notification_after_reset_run_partial covers a Reset naming a queued CON or the entry's "
+            "latest message id; a Reset of an earlier NON notification is ignored by the code (open finding "
+            "rst_of_superseded_notification_ignored, decided witness). (ii) notification bodies needing block-wise transfer: "
+            "the lg_xmit deferral branch of coap_notify_observers is NOT in M; that scenario is judged on the implementation's "
+            "trace by the oracle only (see design/C11.md), block transfer itself is C09. (iii) the < 2^23 hypothesis of the "
+            "ordering theorem is stated on the ghost version counter (number of effective changes). (iv) 'eventually' is the "
+            "step-level progress statement under the explicit fairness hypothesis, not a temporal-logic theorem over infinite "
+            "fair schedules. Retransmissions (tag rtx) of a CON written before a deregistration are not cancelled by "
+            "coap_delete_observer and are not counted as new notifications. Trusted: Lean kernel (+ propext, Classical.choice, "
+            "Quot.sound), T1 extractor, harness/observe.c + sim_core.h, generators, the oracle, the hand transcription M "
+            "(checked on the cases run only); SHA-256 cache key assumed injective; resource ids pairwise distinct (IdsNodup).",
     "design_ref": "DESIGN.md §4 C11, design/C11.md",
 }
 LEAN_MODULES = ["CoapVerif.Props.C11"]
@@ -30,7 +43,16 @@ REQUIRED_THEOREMS = ["reregistration_replaces", "observe_strictly_increasing", "
                      "notification_per_observer_loop", "latest_eventually_notified", "no_notification_after_cancel",
                      "no_notification_after_error_response", "no_notification_after_session_loss",
                      "no_notification_after_resource_deletion", "notes_only_to_listed", "obsNext_matches_code",
-                     "constants_in_range", "reclaim_keeps_referenced"]
+                     "constants_in_range", "reclaim_keeps_referenced",
+                     # global (run-level) statements
+                     "observe_strictly_increasing_run", "every_sixth_con_run", "every_sixth_con_run_init", "nonCnt_in_range",
+                     "ref_eq_holders", "ref_eq_holders_init", "session_alive_while_observed", "session_alive_while_queued",
+                     "idle_reclaim_keeps_observed", "no_notification_while_absent", "no_notification_after_cancel_run",
+                     "no_notification_after_reset_run_partial", "no_notification_after_failed_notify_run",
+                     "no_notification_after_error_response_run", "no_notification_after_error_notification_run",
+                     "no_notification_after_session_loss_run", "no_notification_after_resource_deletion_run",
+                     "deregistration_invariants_init", "stale_entry_keeps_wakeup", "clean_entry_holds_latest",
+                     "latest_eventually_notified_run", "fair_when_acknowledged", "fair_when_non", "wake_holds_initially"]
 RULE = ("event histories (8..90 events + optional fair tail) over 1..3 observable resources (default / NOTIFY_CON / NOTIFY_NON / "
         "NOTIFY_NON_ALWAYS, Observe counter started at 0, mid-range, and just below 2^23 / 2^24 so that it wraps) and 1..4 real "
         "clients: register / re-register (same token, other token same query, other query) / Observe=1 cancel / plain GET with CON "
@@ -48,7 +70,9 @@ ASSUMPTIONS = ["the observe cache key (SHA-256 over the request's cache-key opti
                "no block-wise notification bodies (C09), UDP only, one endpoint, NSTART = 1 as extracted",
                "a token used by a client on two resources at once, or re-used with another query, makes 'the observation' ambiguous: "
                "the oracle then follows the server's table for that token (the tie M = I still covers it)",
-               "compiled Lean definitions agree with the kernel's reading of them"]
+               "compiled Lean definitions agree with the kernel's reading of them",
+               "global theorems: the resources of a state carry pairwise distinct ids (IdsNodup; they are the keys of the context's "
+               "resource table, the harness numbers them 0..n-1) — modRes/findRes address a resource by id"]
 SPEC_DECISIONS = ["D8 every_sixth_con is stated for resources without COAP_RESOURCE_FLAGS_NOTIFY_NON_ALWAYS",
                   "D13 a (re-)registration response carries the counter's current value: it may equal the neighbouring notification's "
                   "number iff no change was signalled in between; strictness is required among change notifications",
